@@ -32,9 +32,13 @@ type Renderer struct {
 	noInline    bool
 	inlineDepth int
 	loadActive  map[*ssa.Alloc]bool
+	allocActive map[*ssa.Alloc]bool
 	// cur: the instruction whose operands are being rendered (the use site of a φ operand)
 	cur       ssa.Instruction
 	live      map[*ssa.BasicBlock]bool
+	domFactsMemo map[*ssa.BasicBlock]map[string]bool
+	contraMemo   map[*ssa.BasicBlock]int
+	inContra     bool
 	// pruneCount: how many φ alternatives were left out so far (a φ rendered with some left out is not memoised)
 	pruneCount int
 	condsMemo map[*ssa.BasicBlock]map[ssa.Value]bool
@@ -458,8 +462,26 @@ func (r *Renderer) render(v ssa.Value) string {
 			return fmt.Sprintf("new(%s)#%d", typeShort(et), r.allocN[x])
 		}
 		var alts []string
+		if r.allocActive == nil {
+			r.allocActive = map[*ssa.Alloc]bool{}
+		}
+		if r.allocActive[x] {
+			return "@var"
+		}
+		r.allocActive[x] = true
 		for _, s := range ws {
-			alts = append(alts, r.E(s.Val))
+			// `return v, nil` of a named result stores the variable into itself: not an assignment of a new value
+			if u, ok := s.Val.(*ssa.UnOp); ok && u.Op == token.MUL && u.X == ssa.Value(x) {
+				continue
+			}
+			if a := r.E(s.Val); a != "@var" {
+				alts = append(alts, a)
+			}
+		}
+		delete(r.allocActive, x)
+		alts = dedupe(alts)
+		if len(alts) == 1 {
+			return alts[0]
 		}
 		return "var{" + joinSorted(alts) + "}"
 	case *ssa.Global:
@@ -769,6 +791,12 @@ func (r *Renderer) load(x *ssa.UnOp) string {
 					}
 					r.loadActive[a] = true
 					defer delete(r.loadActive, a)
+					// what is rendered while this read is being resolved may contain the fallback for a nested read of the
+					// same variable: none of it is memoised
+					if !r.inprog[x] {
+						r.inprog[x] = true
+						defer delete(r.inprog, x)
+					}
 					live := r.liveOrigins(x, a, "")
 					var alts []string
 					zero := false
@@ -784,7 +812,8 @@ func (r *Renderer) load(x *ssa.UnOp) string {
 						if len(alts) == 1 {
 							return alts[0]
 						}
-						return "var{" + strings.Join(alts, "|") + "}"
+						// several assignments can be observed here: the variable is named, not expanded (expanding
+						// the alternatives of a variable that is reassigned in a loop never ends)
 					}
 				}
 			}
@@ -1000,9 +1029,9 @@ func (r *Renderer) deadBlock(b *ssa.BasicBlock) bool {
 			for len(work) > 0 {
 				c := work[len(work)-1]
 				work = work[:len(work)-1]
-				skip := staticNilBranch(c)
+				skip, skip2 := staticNilBranch(c), r.contradictedEdge(c)
 				for i, sc := range c.Succs {
-					if i == skip || r.live[sc] {
+					if i == skip || i == skip2 || r.live[sc] {
 						continue
 					}
 					r.live[sc] = true
@@ -1012,6 +1041,109 @@ func (r *Renderer) deadBlock(b *ssa.BasicBlock) bool {
 		}
 	}
 	return b.Parent() == r.fn && !r.live[b]
+}
+
+// stableValue: v is computed from constants, parameters, results of calls already made and reads of local records
+// (which are rendered with the value they hold at that point): two renderings of such values that are equal text
+// denote equal values.
+func stableValue(v ssa.Value, depth int) bool {
+	if depth > 8 {
+		return false
+	}
+	switch x := v.(type) {
+	case *ssa.Const, *ssa.Parameter:
+		return true
+	case *ssa.BinOp:
+		return stableValue(x.X, depth+1) && stableValue(x.Y, depth+1)
+	case *ssa.UnOp:
+		if x.Op == token.MUL {
+			a, _ := rootAlloc(x.X)
+			return a != nil
+		}
+		return stableValue(x.X, depth+1)
+	case *ssa.Extract:
+		_, isCall := x.Tuple.(*ssa.Call)
+		return isCall
+	case *ssa.Convert:
+		return stableValue(x.X, depth+1)
+	case *ssa.ChangeType:
+		return stableValue(x.X, depth+1)
+	case *ssa.Field:
+		return stableValue(x.X, depth+1)
+	}
+	return false
+}
+
+// domFacts: the texts of the branch outcomes (over stable values) that hold whenever control is in b.
+func (r *Renderer) domFacts(b *ssa.BasicBlock) map[string]bool {
+	if m, ok := r.domFactsMemo[b]; ok {
+		return m
+	}
+	if r.domFactsMemo == nil {
+		r.domFactsMemo = map[*ssa.BasicBlock]map[string]bool{}
+	}
+	m := map[string]bool{}
+	r.domFactsMemo[b] = m
+	for d := b; d != nil && d.Idom() != nil; d = d.Idom() {
+		id := d.Idom()
+		if len(d.Preds) != 1 || d.Preds[0] != id || len(id.Succs) != 2 || id.Succs[0] == id.Succs[1] {
+			continue
+		}
+		iff, ok := id.Instrs[len(id.Instrs)-1].(*ssa.If)
+		if !ok || !stableValue(iff.Cond, 0) {
+			continue
+		}
+		if r.blockReach(id)[id] {
+			continue // inside a loop the same text is a new evaluation each time round
+		}
+		if id.Succs[0] == d {
+			m[posFact(r, iff.Cond)] = true
+		} else {
+			m[negateFact(r, iff.Cond)] = true
+		}
+	}
+	return m
+}
+
+// contradictedEdge: block b branches on a condition whose other outcome is already established on every way into b:
+// returns the index of the successor that cannot be taken, or -1.
+func (r *Renderer) contradictedEdge(b *ssa.BasicBlock) int {
+	if v, ok := r.contraMemo[b]; ok {
+		return v
+	}
+	if r.inContra {
+		return -1 // asked while the facts themselves are being rendered: no answer (never memoised)
+	}
+	r.inContra = true
+	v := r.contradictedEdge1(b)
+	r.inContra = false
+	if r.contraMemo == nil {
+		r.contraMemo = map[*ssa.BasicBlock]int{}
+	}
+	r.contraMemo[b] = v
+	return v
+}
+
+func (r *Renderer) contradictedEdge1(b *ssa.BasicBlock) int {
+	if len(b.Instrs) == 0 || len(b.Succs) != 2 || b.Succs[0] == b.Succs[1] {
+		return -1
+	}
+	iff, ok := b.Instrs[len(b.Instrs)-1].(*ssa.If)
+	if !ok || !stableValue(iff.Cond, 0) || r.blockReach(b)[b] {
+		return -1
+	}
+	facts := r.domFacts(b)
+	if len(facts) == 0 {
+		return -1
+	}
+	pos, neg := posFact(r, iff.Cond), negateFact(r, iff.Cond)
+	switch {
+	case facts[pos] && !facts[neg]:
+		return 1
+	case facts[neg] && !facts[pos]:
+		return 0
+	}
+	return -1
 }
 
 // deadEdge: the transition from → to is the outcome of a nil test that is fixed the other way.
